@@ -166,6 +166,9 @@ func (s *Sampler) pickClass(n *Node) rune {
 }
 
 func (s *Sampler) emit(n *Node, out []rune) []rune {
+	if len(out) > 80 {
+		return out // nested repeats and back-references multiply; inputs are capped anyway
+	}
 	switch n.K {
 	case KLit:
 		r := n.R
